@@ -70,6 +70,8 @@ Definition as_reclen (v : val) : option reclen :=
   | VNone => Some RLNone
   | VInt z => Some (RLFixed z)
   | VTup [VBool be; VInt w] => Some (RLVar be (Z.to_nat w))
+  (* with the struct format string it came from (used by the implementation side only) *)
+  | VTup [VBool be; VInt w; VStr _] => Some (RLVar be (Z.to_nat w))
   | _ => None
   end.
 
